@@ -75,16 +75,26 @@ Next == /\ Len(ks) < MaxLen
 Spec == Init /\ [][Next]_vars
 
 -----------------------------------------------------------------------------
-\* MC: properties of the specification
+\* MC: properties of the specification (ReadingsAgreeInv, ParenNeutral), and
+\* G: one CASE line per sequence.  One invariant, so that every sequence is parsed once.
 ReadingsAgreeInv == ReadingsAgree(Toks(ks))
 
 ParenNeutral == LET ts == Toks(ks)
                     p  == Parse(ts)
                 IN  p # REJECT => Parse(<<LP>> \o ts \o <<RP>>) = p
 
-\* G: one line per sequence
 EmitCase == ks # << >> =>
    LET ts == Toks(ks) IN PrintT(<<"CASE", ToJson([a |-> al, t |-> TokSeqStr(ts), e |-> Parse(ts)])>>)
+
+\* the three together (same meaning, one evaluation of Parse per reading)
+CheckAndEmit ==
+   LET ts == Toks(ks)
+       p  == ParseM("doc", ts)
+       q  == ParseM("table", ts)
+   IN  /\ (p = REJECT) = (q = REJECT)                                  \* ReadingsAgree
+       /\ (p # REJECT => AssocNormal(p) = AssocNormal(q))
+       /\ (p # REJECT => Parse(<<LP>> \o ts \o <<RP>>) = p)             \* ParenNeutral
+       /\ (ks # << >> => PrintT(<<"CASE", ToJson([a |-> al, t |-> TokSeqStr(ts), e |-> p])>>))
 
 -----------------------------------------------------------------------------
 \* Constants of the Lexer the harness needs: the spelling table and the separator rule
